@@ -233,28 +233,6 @@ theorem Sess.shutdown_false_clears (s : Sess) : (s.shutdown false).resumable = f
 theorem Sess.shutdown_true_keeps (s : Sess) : s.shutdown true = s := by
   simp [Sess.shutdown]
 
-/-- <=1.2: if both ends complete, they agree on `resumed`, and the client reports resumed exactly
-    when the server decided to resume. -/
-theorem client_resumed_flag_sound (dec : Decision) (sess : Option CSess) (sentSid newSid : Bytes)
-    (nsuite : Nat) (hd : (outcome12 dec sess sentSid newSid nsuite).bothDone = true) :
-    (outcome12 dec sess sentSid newSid nsuite).cResumed = (outcome12 dec sess sentSid newSid nsuite).sResumed ∧
-    ((outcome12 dec sess sentSid newSid nsuite).cResumed = true ↔ ∃ s, dec = .resume s) := by
-  unfold outcome12 at hd ⊢
-  cases dec with
-  | alert a => simp [Outcome.bothDone] at hd
-  | assertionError => simp [Outcome.bothDone] at hd
-  | external i => simp [Outcome.bothDone] at hd
-  | resume s =>
-    simp only at hd ⊢
-    split at hd <;> simp [Outcome.bothDone] at hd
-    rename_i hb
-    simp
-  | full =>
-    simp only at hd ⊢
-    split at hd <;> simp [Outcome.bothDone] at hd
-    rename_i hb
-    simp
-
 /-- <=1.2, client side: `resumed` is reported only if the ServerHello echoes the session's id or
     the random id sent along with a ticket, and names the session's suite. -/
 theorem client_belief_resumed (sess : Option CSess) (sentSid shSid : Bytes) (shSuite : Nat)
@@ -276,6 +254,38 @@ theorem client_belief_resumed (sess : Option CSess) (sentSid shSid : Bytes) (shS
         · left; exact ⟨by intro h0; simp [h0] at h1, h2⟩
         · right; exact ⟨by intro h0; simp [h0] at h1, by intro h0; simp [h0] at h2, h3⟩
     · contradiction
+
+/-- <=1.2: if both ends complete, they agree on `resumed`, the client reports resumed exactly
+    when the server decided to resume, and then the client's session object holds the very master
+    secret and suite of the session the server resumed. -/
+theorem client_resumed_flag_sound (dec : Decision) (sess : Option CSess) (sentSid newSid : Bytes)
+    (nsuite : Nat) (hd : (outcome12 dec sess sentSid newSid nsuite).bothDone = true) :
+    (outcome12 dec sess sentSid newSid nsuite).cResumed = (outcome12 dec sess sentSid newSid nsuite).sResumed ∧
+    ((outcome12 dec sess sentSid newSid nsuite).cResumed = true ↔ ∃ s, dec = .resume s) ∧
+    (∀ s, dec = .resume s → ∃ c, sess = some c ∧ c.secret = s.secret ∧ c.suite = s.suite) := by
+  unfold outcome12 at hd ⊢
+  cases dec with
+  | alert a => simp [Outcome.bothDone] at hd
+  | assertionError => simp [Outcome.bothDone] at hd
+  | external i => simp [Outcome.bothDone] at hd
+  | resume s =>
+    simp only at hd ⊢
+    split at hd
+    · rename_i hb
+      split at hd
+      · rename_i hsec
+        obtain ⟨c, hc, hsuite, _⟩ := client_belief_resumed _ _ _ _ hb
+        simp only [hsec, if_true, true_and, Decision.resume.injEq, exists_eq', forall_eq']
+        subst hc
+        refine ⟨c, rfl, ?_, hsuite.symm⟩
+        simpa using hsec
+      · simp [Outcome.bothDone] at hd
+    · simp [Outcome.bothDone] at hd
+    · simp [Outcome.bothDone] at hd
+  | full =>
+    simp only at hd ⊢
+    split at hd <;> simp [Outcome.bothDone] at hd
+    simp
 
 /-- <=1.2: when the server declines (full handshake) and its ServerHello carries a session id that
     is neither the offered session's nor the random one sent with the ticket, the client carries
